@@ -64,11 +64,24 @@ pub mod control {
     thread_local! { pub(crate) static STATE: RefCell<State> = RefCell::new(State::default()); }
 
     pub fn begin(plan: Plan) {
-        STATE.with(|s| *s.borrow_mut() = State { plan, stats: Stats::default(), pool: None })
+        let old = STATE.with(|s| std::mem::replace(&mut *s.borrow_mut(), State { plan, stats: Stats::default(), pool: None }));
+        forget_pool(old);
     }
 
     pub fn end() -> Stats {
-        STATE.with(|s| std::mem::take(&mut *s.borrow_mut()).stats)
+        let mut old = STATE.with(|s| std::mem::take(&mut *s.borrow_mut()));
+        let stats = std::mem::take(&mut old.stats);
+        forget_pool(old);
+        stats
+    }
+
+    /// A pool reference left behind by an execution that was aborted (a task panicked while the
+    /// caller was inside `scope`) belongs to a dead execution: its mutex must never be touched
+    /// again, so the reference is leaked instead of dropped.
+    fn forget_pool(mut old: State) {
+        if let Some(p) = old.pool.take() {
+            std::mem::forget(p);
+        }
     }
 }
 
@@ -222,14 +235,20 @@ impl Drop for PoolInner {
         if std::thread::panicking() {
             return;
         }
-        {
-            let mut st = self.shared.m.lock().unwrap();
-            st.shutdown = true;
-            self.shared.work.notify_all();
-        }
-        for h in self.handles.borrow_mut().drain(..) {
-            let _ = h.join();
-        }
+        // outside a live simulated execution (e.g. thread-local destruction at thread exit after
+        // an aborted execution) the simulator's primitives panic; never let that escape a drop
+        let shared = self.shared.clone();
+        let handles: Vec<_> = self.handles.borrow_mut().drain(..).collect();
+        let _ = std::panic::catch_unwind(std::panic::AssertUnwindSafe(move || {
+            {
+                let mut st = shared.m.lock().unwrap();
+                st.shutdown = true;
+                shared.work.notify_all();
+            }
+            for h in handles {
+                let _ = h.join();
+            }
+        }));
     }
 }
 
@@ -251,10 +270,22 @@ impl ThreadPool {
         OP: FnOnce(&Scope<'scope>) -> R + Send,
         R: Send,
     {
+        // restore the previous pool on unwind too (a panic inside `op` must not leave this pool
+        // installed in the thread-local state)
+        struct Restore(Option<Option<Rc<PoolInner>>>);
+        impl Drop for Restore {
+            fn drop(&mut self) {
+                if let Some(old) = self.0.take() {
+                    let cur = STATE.with(|s| std::mem::replace(&mut s.borrow_mut().pool, old));
+                    if std::thread::panicking() {
+                        std::mem::forget(cur);
+                    }
+                }
+            }
+        }
         let old = STATE.with(|s| s.borrow_mut().pool.replace(self.inner.clone()));
-        let r = op(&Scope(PhantomData));
-        STATE.with(|s| s.borrow_mut().pool = old);
-        r
+        let _restore = Restore(Some(old));
+        op(&Scope(PhantomData))
     }
 }
 
